@@ -336,6 +336,8 @@ VK_STEP(update_unencoded_base_hash, u.update_unencoded_base_hash(VK_VALUE))
 VK_STEP(update_base_port, u.update_base_port(uint32_t(p0)))
 VK_STEP(add_authority_slashes, u.add_authority_slashes_if_needed())
 VK_STEP(delete_dash_dot, u.delete_dash_dot())
+// the pair the empty-host branch of the host setters runs on an authority-less URL
+VK_STEP(authority_without_guard, { u.add_authority_slashes_if_needed(); if (u.has_dash_dot()) u.delete_dash_dot(); })
 VK_STEP(set_scheme, u.set_scheme(VK_VALUE))
 VK_STEP(set_scheme_with_colon, u.set_scheme_from_view_with_colon(VK_VALUE))
 VK_STEP(set_protocol_as_file, u.set_protocol_as_file())
@@ -755,6 +757,16 @@ static bool vk_apply_setter(T& x, uint64_t which, std::string_view v) {
     case 8: x.set_hash(v); return true;
     default: return x.set_href(v);
   }
+}
+// url_search_params: construct from the query string, sort(), serialise (C12 base case beyond the solver's bound)
+VK(sp_sort) {
+  UNUSED;
+  ada::url_search_params sp(SV);
+  if (p0) sp.sort();
+  std::string s = sp.to_string();
+  if (s.size() > cap) return ~0ull;
+  memcpy(out, s.data(), s.size());
+  return s.size();
 }
 // Setter under a limit (C09 base case): the URL is parsed with no limit; the unlimited outcome of the setter is computed
 // on copies; then for L in {|before|, |unlimited result| - 1, |unlimited result|} (only L >= |before|, so that the
